@@ -11,6 +11,7 @@ package main
 import (
 	"fmt"
 	"sync"
+	"time"
 
 	"github.com/piotrnar/gocoin/lib/others/memory"
 )
@@ -37,13 +38,17 @@ func runStress(u *Unit, res *UnitResult, cur *curFile) {
 			Replay: map[string]interface{}{"part": "stress", "unit": replayUnit(u)}})
 	}
 	for round := 0; round < u.Rounds; round++ {
-		fails := make([]*Fail, u.Threads)
-		var wg sync.WaitGroup
+		// A failing thread may leave a class mutex locked inside the allocator (a panic
+		// in Malloc/Free is recovered by Protect, the lock is not released): the other
+		// threads can then block forever. After the first failure the rest get 30 s.
+		type tres struct {
+			i int
+			f *Fail
+		}
+		resc := make(chan tres, u.Threads)
 		for i := range ts {
-			wg.Add(1)
 			go func(i int) {
-				defer wg.Done()
-				fails[i] = Protect(func() *Fail {
+				f := Protect(func() *Fail {
 					// even rounds grow to MaxLive, odd rounds shrink to an eighth of it:
 					// the shrink phases leave the pages fragmented for the defrag pass
 					ml := u.MaxLive
@@ -52,14 +57,26 @@ func runStress(u *Unit, res *UnitResult, cur *curFile) {
 					}
 					return ts[i].StressBody(u.Sizes, u.OpsPer, ml, 16, uint64(round*1000+i+1))
 				})
+				resc <- tres{i, f}
 			}(i)
 		}
-		wg.Wait()
-		for _, f := range fails {
-			if f != nil {
-				report(round, "inside a thread", f)
-				return
+		var firstFail *Fail
+		var deadline <-chan time.Time
+		for got := 0; got < u.Threads; {
+			select {
+			case r := <-resc:
+				got++
+				if r.f != nil && firstFail == nil {
+					firstFail = r.f
+					deadline = time.After(30 * time.Second)
+				}
+			case <-deadline:
+				got = u.Threads
 			}
+		}
+		if firstFail != nil {
+			report(round, "inside a thread", firstFail)
+			return
 		}
 		total := 0
 		for _, t := range ts {
